@@ -67,7 +67,13 @@ def faults_for(c, tier, nops=None):
 
 
 def plan(tier, seed):
-    return [{"config": c, "i": i} for i, c in enumerate(rc.configs(tier))]
+    cs = rc.configs(tier)
+    if tier == "quick":
+        # four one-record workers x 8 fault points each are left to the thorough tier (the three-worker configurations stay)
+        cs = [c for c in cs if not (c["nrec"] == 4 and c["batch"] == 1)]
+    # the heaviest configurations first, so that the pool stays busy
+    cs.sort(key=lambda c: -(rc.n_workers(c) * (c["nrec"] + 2) * (3 if c.get("long") else 1)))
+    return [{"config": c, "i": i} for i, c in enumerate(cs)]
 
 
 def judge(x, nrec, fault):
